@@ -48,7 +48,12 @@ func walkStream(p walkProfile, what string, q, t int) {
 		Rule: "Struct entry points on synthesised (reflect.StructOf) and named struct types: " + what +
 			". The whole error string is compared with the model (group clauses and map entries modulo order). non-trivial: the call returned an error; distinct by request",
 		Size: map[string]int{"quick": q, "thorough": t},
-		Gen:  func(r *rand.Rand, tier string) Case { return walkerCase(r, p) },
+		Gen: func(r *rand.Rand, tier string) Case {
+			if chance(r, 0.01) {
+				panicAside(r) // a caller's own function panicked in some earlier call (recovered there): nothing of it may show here
+			}
+			return walkerCase(r, p)
+		},
 	})
 }
 
